@@ -113,6 +113,7 @@ class InstrInfo:
         self.features = []
         self.feature = None
         self.divisors = set()
+        self.const_div = {}  # operand divided by a constant in the body -> the constant
         self.written = set()
         self.ctl_domain = []  # list of {ctlname: value}
         self.ctl_range = {}  # ctlname -> (lo, hi) when the domain is a box of contiguous ranges
@@ -307,6 +308,10 @@ def analyse(name, proc):
             if isinstance(x, LoopIR.BinOp):
                 if x.op in ("-", "/"):
                     feats.add("operand_order")
+                if x.op == "/" and isinstance(x.rhs, LoopIR.Const) and x.rhs.val not in (0, 1):
+                    for n in _names_in(x.lhs):
+                        if n in byname and byname[n].kind in ("reg", "dram", "scalar"):
+                            info.const_div[byname[n].name] = x.rhs.val
                 if x.op == "/":
                     for n in _names_in(x.rhs):
                         if n in byname and byname[n].kind in ("reg", "dram", "scalar"):
@@ -492,6 +497,7 @@ def build_wrapper(info, pl, harness, modname=PLATFORM_MODULE):
     for a in info.args:
         used.add(a.name)
     wargs = []  # dicts: name, role, ...
+    windows = {}  # operand -> where its window lies inside the wrapper argument (for diagnosis)
     asserts = []
     allocs = []
     pre = []
@@ -553,16 +559,21 @@ def build_wrapper(info, pl, harness, modname=PLATFORM_MODULE):
             # the window handed to the instruction
             if not lead and op["whole"]:
                 call_args.append(rname)
+                windows[a.name] = {"buf": ioname, "shape": shape, "pts": {}, "wdim": 0, "lo": ["lit", 0]}
             else:
                 idxs = []
+                wpts = {}
                 for d, (n, i) in enumerate(zip(lead, op["idx"])):
                     if op["dyn"]:
                         iv = fresh(f"i{d}_{a.name}")
                         wargs.append({"name": iv, "role": "idx", "type": "index", "lo": 0, "hi": n - 1, "for": a.name})
                         asserts += [f"{iv} >= 0", f"{iv} < {n}"]
                         idxs.append(iv)
+                        wpts[str(d)] = ["arg", iv]
                     else:
                         idxs.append(str(i))
+                        wpts[str(d)] = ["lit", i]
+                windows[a.name] = {"buf": ioname, "shape": shape, "pts": wpts, "wdim": len(lead), "lo": ["lit", 0]}
                 call_args.append(f"{rname}[{''.join(i + ', ' for i in idxs)}0:{a.width}]")
         elif a.kind == "dram":
             mname = fresh(a.name + "_m")
@@ -588,10 +599,12 @@ def build_wrapper(info, pl, harness, modname=PLATFORM_MODULE):
                 asserts += [f"{ov} >= 0", f"{ov} + {n_src} <= {L}"]
                 lo_src = ov
                 hi_src = f"{ov} + {n_src}"
+                wlo = ["arg", ov]
             else:
                 o = min(L - nmax, int(op["off"] * (L - nmax + 1)))
                 lo_src = str(o)
                 hi_src = str(o + nmax) if n_is_const else f"{o} + {n_src}"
+                wlo = ["lit", o]
             if lay == "1d":
                 shape = [L]
                 win = f"{mname}[{lo_src}:{hi_src}]"
@@ -603,11 +616,19 @@ def build_wrapper(info, pl, harness, modname=PLATFORM_MODULE):
                 win = f"{mname}[{lo_src}:{hi_src}, {oi}]"
             wargs.append({"name": mname, "role": "mem", "bt": a.bt, "shape": shape, "for": a.name})
             call_args.append(win)
+            windows[a.name] = {
+                "buf": mname,
+                "shape": shape,
+                "pts": {} if lay == "1d" else ({"0": ["lit", oi]} if lay == "row" else {"1": ["lit", oi]}),
+                "wdim": 1 if lay == "row" else 0,
+                "lo": wlo,
+            }
         elif a.kind == "scalar":
             if op["mode"] == "arg":
                 sname = fresh(a.name + "_s")
                 wargs.append({"name": sname, "role": "scalar", "bt": a.bt, "shape": [], "for": a.name})
                 call_args.append(sname)
+                windows[a.name] = {"buf": sname, "shape": [], "pts": {}, "wdim": 0, "lo": ["lit", 0]}
             else:
                 mname, tname = fresh(a.name + "_m"), fresh(a.name + "_t")
                 n = op["len"]
@@ -617,6 +638,7 @@ def build_wrapper(info, pl, harness, modname=PLATFORM_MODULE):
                 pre.append(f"{tname} = {mname}[{k}]")
                 post.append(f"{mname}[{k}] = {tname}")
                 call_args.append(tname)
+                windows[a.name] = {"buf": mname, "shape": [n], "pts": {}, "wdim": 0, "lo": ["lit", k]}
     # harness self-check: one extra register array per register kind that the instruction never sees,
     # loaded before and stored (rows reversed) after the call: validates the load/store pair in this binary
     kinds = []
@@ -679,7 +701,7 @@ def build_wrapper(info, pl, harness, modname=PLATFORM_MODULE):
     for s in post:
         lines.append(f"    {s}")
     src = "\n".join(lines) + "\n"
-    meta = {"proc": pname, "wargs": order, "call": f"{info.name}({', '.join(call_args)})", "ctl_mode": ctl_mode, "ctl_lit": ctl_lit}
+    meta = {"proc": pname, "wargs": order, "windows": windows, "call": f"{info.name}({', '.join(call_args)})", "ctl_mode": ctl_mode, "ctl_lit": ctl_lit}
     return src, meta
 
 
@@ -783,6 +805,17 @@ def gen_inputs(info, meta, rng, nsets):
                     vals = _int_vals(bt, imode, size, rng, state)
                 else:
                     vals = _float_vals(fmode, size, rng, state, w["for"] in info.divisors, approx_div)
+                kdiv = info.const_div.get(w["for"])
+                if kdiv and j % 4 != 3:
+                    # dividends of a constant divisor: multiples of it keep the quotient exact
+                    kq = Fraction(kdiv)
+                    if bt in _INT_RANGE and kq.denominator == 1:
+                        vals = [(v // int(kq)) * int(kq) for v in vals]
+                        lo_, hi_ = _INT_RANGE[bt]
+                        vals = [v if lo_ <= v <= hi_ else 0 for v in vals]
+                    elif bt not in _INT_RANGE:
+                        vals = [v * kq for v in vals]
+                        vals = [int(v) if v.denominator == 1 else v for v in vals]
                 strides = []
                 k = 1
                 for s in reversed(shape):
@@ -1080,13 +1113,83 @@ def _execute_group(preps, workdir, max_rebuilds):
     return builds
 
 
+def _dense(shape):
+    st, k = [], 1
+    for n in reversed(shape):
+        st.append(k)
+        k *= n
+    return list(reversed(st))
+
+
+def locate(info, meta, spec, diffs):
+    """every differing element -> (operand, lane | None, class); class in
+    active | inactive | lane | outside_window | unwritten_operand | harness | unknown"""
+    ints = {a["name"]: a["v"] for a in spec.args if a["k"] != "buf"}
+    ctl = {}
+    for c, m in (meta.get("ctl_mode") or {}).items():
+        ctl[c] = ints.get(c) if m == "arg" else (meta.get("ctl_lit") or {}).get(c)
+    ctls = [a for a in info.args if a.kind == "ctl"]
+    masked = "mask_lanes" in info.features and len(ctls) == 1 and ctls[0].ctl_type != "bool"
+    bound = ctl.get(ctls[0].name) if masked else None
+    bybuf = {}
+    for opname, w in (meta.get("windows") or {}).items():
+        a = next((x for x in info.args if x.name == opname), None)
+        if a is None:
+            continue
+        if a.kind == "scalar":
+            n = 1
+        else:
+            try:
+                n = eval_expr(a.shape[0], {x.sym: ctl[x.name] for x in ctls})
+            except Exception:
+                n = None
+        st = _dense(w["shape"])
+        val = lambda t: ints.get(t[1]) if t[0] == "arg" else t[1]
+        base = sum(val(t) * st[int(d)] for d, t in w["pts"].items())
+        step = st[w["wdim"]] if st else 1
+        base += val(w["lo"]) * step
+        bybuf.setdefault(w["buf"], []).append((opname, base, step, n))
+    hc = {w["name"] for w in meta["wargs"] if w.get("role") == "hc"}
+    out = []
+    for d in diffs:
+        buf, off = d.get("arg"), d.get("off")
+        if buf in hc:
+            out.append(("__harness__", None, "harness"))
+            continue
+        hit = None
+        for opname, base, step, n in bybuf.get(buf, []):
+            if off is None or n is None:
+                continue
+            q, r = divmod(off - base, step)
+            if r == 0 and 0 <= q < n:
+                hit = (opname, q)
+        if hit is None:
+            ops = [x[0] for x in bybuf.get(buf, [])]
+            out.append((ops[0] if ops else buf, None, "outside_window" if ops else "unknown"))
+            continue
+        opname, lane = hit
+        if opname not in info.written:
+            cls = "unwritten_operand"
+        elif masked and bound is not None:
+            cls = "active" if lane < bound else "inactive"
+        else:
+            cls = "lane"
+        out.append((opname, lane, cls))
+    return out, ctl
+
+
 def describe_diffs(info, meta, spec, diffs, limit=12):
-    """human-readable witness: which wrapper buffers differ, C (intrinsic) vs body (interpreter)"""
-    ctl = {a["name"]: a["v"] for a in spec.args if a["k"] != "buf"}
-    lines = [f"call: {meta.get('call')}   control/index arguments: {ctl}"]
-    for d in diffs[:limit]:
+    """human-readable witness: which elements differ, C (intrinsic) vs body (interpreter)"""
+    ints = {a["name"]: a["v"] for a in spec.args if a["k"] != "buf"}
+    try:
+        locs, ctl = locate(info, meta, spec, diffs)
+    except Exception:
+        locs, ctl = [("?", None, "unknown")] * len(diffs), {}
+    lines = [f"call: {meta.get('call')}   size/mask arguments: {ctl}   index arguments: { {k: v for k, v in ints.items() if k not in ctl} }"]
+    for d, (opname, lane, cls) in list(zip(diffs, locs))[:limit]:
         if "off" in d:
-            lines.append(f"  {d['arg']}[flat {d['off']}]: intrinsic={d['c']}  body={d['body']}  (before the call: {d.get('init')})")
+            where = f"{opname}[{lane}] ({cls})" if lane is not None else f"{opname} ({cls})"
+            lines.append(f"  {where}: intrinsic={d['c']}  body={d['body']}  before the call={d.get('init')}   [{d['arg']} flat {d['off']}]")
         else:
             lines.append(f"  {d}")
     if len(diffs) > limit:
@@ -1095,12 +1198,9 @@ def describe_diffs(info, meta, spec, diffs, limit=12):
 
 
 def where_hint(info, meta, spec, diffs):
-    """coarse location of the differences (goes to the case, not to the signature)"""
-    by = {w["name"]: w for w in meta["wargs"]}
-    out = set()
-    for d in diffs:
-        w = by.get(d.get("arg"))
-        if w is None:
-            continue
-        out.add(("written:" if w["for"] in info.written else "unwritten:") + w["for"])
-    return sorted(out)
+    """coarse, sorted set of location classes of the differences"""
+    try:
+        locs, _ = locate(info, meta, spec, diffs)
+    except Exception:
+        return ["unknown"]
+    return sorted({c for _, _, c in locs})
